@@ -139,6 +139,61 @@ class InboundCriteria(Unit):
 
 
 # ================================================================================================
+# get_unreachable_barriers (definition of the UB fact)
+# ================================================================================================
+class UnreachableBarriers(Unit):
+    bounded = True
+    name = "S.get_unreachable_barriers"
+    functions = ["orquesta.conducting.WorkflowState.get_unreachable_barriers"]
+    obligations = {
+        "C07.gub.definition": {"props": ["C07", "C02"], "text":
+            "get_unreachable_barriers returns exactly the staged entries, at any position of the staged list, that are join tasks, not ready, and whose inbound criteria can no longer be satisfied - in staged order, whatever other entries (ready tasks, completed-flagged with-items entries) surround them"},
+    }
+    assumptions = ["BOUNDED: <= 3 staged entries; per entry: join or not, ready flag and inbound-criteria status symbolic",
+                   "graph.get_barriers / get_inbound_criteria_status through their contracts"]
+    trusted = ["z3 5.1", "pyvc interpreter"]
+
+    def splits(self, tier):
+        return [0, 1, 2, 3]
+
+    def run_split(self, ctx, split):
+        n = split
+
+        def thunk(e):
+            staged, meta = [], []
+            for k in range(n):
+                is_join = e.branch(S.mk_bool("is_join%d" % k).z)
+                ready = e.register_input("ready%d" % k, S.mk_bool("ready%d" % k))
+                inb = S.mk_const("inb%d" % k, (SAT, WIP, NOT))
+                e.assume(inb.dom_constraint())
+                tid = ("j%d" % k) if is_join else ("p%d" % k)
+                ent = {"id": tid, "route": 0, "ctxs": {"in": [0]}, "prev": {}, "ready": ready}
+                if not is_join and e.branch(S.mk_bool("completed%d" % k).z):
+                    ent["completed"] = True
+                    ent["items"] = []
+                staged.append(ent)
+                meta.append((is_join, ready, inb))
+            graph = AbstractObj("graph", get_barriers=Stub("get_barriers", lambda eng: {
+                "j%d" % k: {"barrier": "*"} for k in range(n) if meta[k][0]}))
+            c, ws = cbase.new_conductor(st.RUNNING, staged=staged, graph=graph)
+            e.overrides[conducting.WorkflowConductor.get_inbound_criteria_status] = \
+                lambda eng, s_, tid, route: meta[int(tid[1:])][2]
+            res = e.call(conducting.WorkflowState.get_unreachable_barriers, [ws], {})
+            cl = []
+            for k in range(n):
+                is_join, ready, inb = meta[k]
+                want = z3.And(z3.BoolVal(is_join), z3.Not(ready.z), inb.z == INTERN.id_of(NOT))
+                cl.append(want == z3.BoolVal(any(x is staged[k] for x in res)))
+            order_ok = [staged.index(x) for x in res] == sorted(staged.index(x) for x in res)
+            ctx.oblige("C07.gub.definition", z3.And(z3.BoolVal(order_ok), *cl) if cl else z3.BoolVal(res == []), None,
+                       {"staged": n})
+            ctx.canary()
+
+        ctx.eng.explore(thunk)
+        ctx.bounded.append({"unit": self.name, "bound": "%d staged entries" % n})
+
+
+# ================================================================================================
 # make_task_result
 # ================================================================================================
 class MakeTaskResult(Unit):
